@@ -8,7 +8,7 @@ present) = cumulative end offsets (entry >> 1 when cache bits are on) with last 
 Not asserted: minimal widths; a particular order among the valid topological orders; the per-cell cache bit value.
 """
 from hypothesis import strategies as st
-from harness.core import Sub, Fail, call, exc_sig
+from harness.core import Sub, Fail, call, exc_sig, look
 from harness.gen import dag, boccases
 from harness.ref import refcell as rc, refboc
 
@@ -27,7 +27,34 @@ def check(case):
     ndistinct = rc.count_distinct(root_r)
     if 'name' not in case:
         dag.disturb(lib)            # history: inner nodes serialised on their own, builders/slices derived and used
-    for (idx, crc, cache) in boccases.OPTSETS:
+    small = 'name' not in case
+    if small and max(root_r.D(i) for i in range(4)) < 1023:
+        # the same tree once more, held in an application's own Cell subclass (parsed from the root's bag into it), beside the
+        # plain one under a new parent: cells are values - the bag of the parent holds every distinct cell once, whatever classes
+        from pytoniq_core.boc.builder import Builder
+        ok, twin = call(lambda: dag.cell_subclass().one_from_boc(root.to_boc()))
+        if not ok:
+            return Fail('construction-raises/parse-into-Cell-subclass', f'{exc_sig(twin)}: {twin!r}')
+        inner = twin.refs[-1] if twin.refs else twin
+        ok, parent = call(lambda: Builder().store_bits('1011').store_ref(root).store_ref(twin).store_ref(inner).end_cell())
+        if not ok:
+            return Fail('construction-raises/parent-over-plain-and-subclass-twin', f'{exc_sig(parent)}: {parent!r}')
+        inner_r = root_r.refs[-1] if root_r.refs else root_r
+        f = _conforms(parent, rc.RCell('1011', [root_r, root_r, inner_r], False), ndistinct + 1, (1, 1, 0), 'plain-and-subclass-twins/')
+        if f:
+            return f
+    for oi, (idx, crc, cache) in enumerate(boccases.OPTSETS):
+        if small and oi % 2:
+            look(root)              # the caller printed the tree in between: it is what it was
+        f = _conforms(root, root_r, ndistinct, (idx, crc, cache), '')
+        if f:
+            return f
+    return None
+
+
+def _conforms(root, root_r, ndistinct, opts, pre):
+    if True:
+        idx, crc, cache = opts
         tag = f'idx{idx}crc{crc}cache{cache}'
         ok, boc = call(root.to_boc, bool(idx), bool(crc), bool(cache))
         if not ok:
@@ -38,7 +65,7 @@ def check(case):
             msg = str(e)
             import re
             cls = re.sub(r'[0-9]+', '#', msg)[:60]
-            return Fail(f'nonconforming/{cls}/{tag if "index" in msg else "any"}', f'{tag}: strict decoder: {msg}; boc={bytes(boc).hex()[:400]}')
+            return Fail(f'{pre}nonconforming/{cls}/{tag if "index" in msg else "any"}', f'{tag}: strict decoder: {msg}; boc={bytes(boc).hex()[:400]}')
         if h['magic'] != 'generic':
             return Fail('header/magic', tag)
         if (h['has_idx'], h['has_crc'], h['has_cache_bits']) != (bool(idx), bool(crc), bool(cache)):
@@ -46,9 +73,9 @@ def check(case):
         if h['roots'] != 1 or h['absent'] != 0:
             return Fail('header/roots-absent', f'{tag}: roots={h["roots"]} absent={h["absent"]}')
         if h['cells'] != ndistinct:
-            return Fail('cells/count-differs-from-distinct-cells', f'{tag}: {h["cells"]} vs {ndistinct}')
+            return Fail(pre + 'cells/count-differs-from-distinct-cells', f'{tag}: {h["cells"]} vs {ndistinct}')
         if h['root_cells'][0].repr_hash() != root_r.repr_hash():
-            return Fail('decoded-root-hash-differs', tag)
+            return Fail(pre + 'decoded-root-hash-differs', tag)
     return None
 
 
